@@ -462,7 +462,7 @@ func clamp(x, lo, hi int64) int64 {
 }
 
 func gen(r *hx.Rand, tier string) []json.RawMessage {
-	n := 1200
+	n := 800
 	if tier == "thorough" {
 		n = 20000
 	}
